@@ -45,7 +45,9 @@ def main():
                     what = json.load(open(concrete[0][0])).get('what', '')[:300]
                 except Exception:
                     pass
-            out[c] = dict(status='caught-with-failing-input' if concrete else ('caught-no-failing-input' if viol else 'MISSED'),
+            crashed = (not viol) and r.returncode != 0
+            out[c] = dict(status='caught-with-failing-input' if concrete else ('caught-no-failing-input' if viol else ('CHECK-CRASHED' if crashed else 'MISSED')),
+                          tail=(r.stdout[-600:] if crashed else ''),
                           rc=r.returncode, violations=len(viol), first=what, wall_s=round(time.time() - t0, 1))
         res[sid] = dict(property=prop, needs=meta.get('needs', '')[:400], summary=meta.get('summary', '')[:400], checks=out,
                         repo_head=sh('git -C /repo rev-parse --short HEAD').stdout.strip())
